@@ -46,14 +46,11 @@ def _graph(cfg, check=True):
     return res, rr.Graph(g, init)
 
 
-def _negatives():
-    out = []
-    for cfg, prop in NEGATIVE:
-        res = tlc.run_tlc("readonly", "ReadOnly", cfg, workers=2, heap="1g", keep_lines=False)
-        if prop not in res.violated and "temporal" not in res.violated:
-            raise MachineryError(f"negative control {cfg}: expected {prop} to be violated, got {res.violated}")
-        out.append(f"{cfg}: {prop} violated as expected")
-    return out
+def _negative(cfg, prop):
+    res = tlc.run_tlc("readonly", "ReadOnly", cfg, workers=1, heap="1g", keep_lines=False)
+    if prop not in res.violated:
+        raise MachineryError(f"negative control {cfg}: expected {prop} to be violated, got {res.violated}")
+    return f"{cfg}: {prop} violated as expected"
 
 
 # ----------------------------------------------------------------------------------------- workers
@@ -160,6 +157,25 @@ def _run(tier, seed, tmp, t0):
     spec_level = [e["id"] for e in eps if e["spec_level"]]
     eps = [e for e in eps if not e["spec_level"]]
 
+    t_spec = time.time()
+    # ---- specification (all TLC runs side by side: they are independent JVMs)
+    from concurrent.futures import ThreadPoolExecutor
+    with ThreadPoolExecutor(max_workers=5) as pool:
+        f_ideal = pool.submit(_graph, CFG[tier])
+        f_dev = {name: pool.submit(_graph, cfg, False) for name, cfg in ASBUILT.items()}
+        f_neg = [pool.submit(_negative, cfg, prop) for cfg, prop in NEGATIVE]
+        res, ideal = f_ideal.result()
+        graphs = {"ideal": ideal}
+        tlc_states, tlc_trans = res.distinct, res.generated
+        for name, fut in f_dev.items():
+            r2, g2 = fut.result()
+            graphs[name] = g2
+            tlc_states += r2.distinct
+            tlc_trans += r2.generated
+        negatives = [f.result() for f in f_neg]
+    _CTX["graphs"] = graphs
+    t_tlc = time.time() - t_spec
+
     # ---- binding: classification of every entry point in mode r+
     t1 = time.time()
     getters = defaultdict(list)
@@ -176,19 +192,6 @@ def _run(tier, seed, tmp, t0):
     count = Counter(c["cls"] for c in cls_list)
     if count["W"] < MIN_W or count["G"] < MIN_G:
         raise MachineryError(f"too few entry points classified: {dict(count)}")
-
-    # ---- specification
-    res, ideal = _graph(CFG[tier])
-    graphs = {"ideal": ideal}
-    tlc_states, tlc_trans = res.distinct, res.generated
-    for name, cfg in ASBUILT.items():
-        r2, g2 = _graph(cfg, check=False)
-        graphs[name] = g2
-        tlc_states += r2.distinct
-        tlc_trans += r2.generated
-    negatives = _negatives()
-    _CTX["graphs"] = graphs
-    t_tlc = res.wall_s
 
     # ---- plans
     binder = rr.Binder(eps, classes, seed)
